@@ -200,6 +200,6 @@ var conv = ev.NewCheck("C16", "convert",
 	"rapid: single-track smf.New() sources with 0..300 events (channel messages on 1..16 channels, metas, sysex), deltas biased to 0 (many events per tick, > 12 on one tick), closed or unclosed, all time divisions, total ticks < 2^27, as value or written+read back first; oracle = model: absolute tick per source message, non-channel messages (incl. the source's end-of-track) on track 0, one track per used channel in ascending order, per result track the (tick, bytes) sequence in source order followed by exactly one end-of-track, format 1, same division; non-trivial = >= 3 channels, a non-channel message after tick 0 and a tick with >= 3 events; distinct by case hash",
 	genCase, run)
 
-func TestPropConvert(t *testing.T) { conv.Rapid(t, 500, 50000) }
+func TestPropConvert(t *testing.T) { conv.Rapid(t, 2500, 50000) }
 
 func TestReplay(t *testing.T) { ev.ReplayAll(t) }
